@@ -144,12 +144,14 @@ def run(ctx):
                 "iff some record spans ≥ 2 input packets or TLS and QUIC are both present.")
     ctx.assumptions = ["microsecond timestamps: input timestamps are integer µs; the output is read back as integer µs"]
     import session_corr
-    ctx.prove(["TLX.Props.C07", "TLX.Props.C05", "TLX.Props.C07Session", "TLX.Props.C02Out"])
-    ctx.require_theorems(THEOREMS + session_corr.THEOREMS_C07 + ["TLX.Props.C02Out." + t for t in ("out_key_from_frames", "out_key_occurs", "build_groups")])
+    import export_props_thms, file_corr     # whole-program form (Props/ExportProps) about TLX.Export.framesFrom, tied file to file
+    ctx.prove(["TLX.Props.C07", "TLX.Props.C05", "TLX.Props.C07Session", "TLX.Props.C02Out"] + export_props_thms.MODULES)
+    ctx.require_theorems(THEOREMS + session_corr.THEOREMS_C07 + export_props_thms.THEOREMS_C07 + ["TLX.Props.C02Out." + t for t in ("out_key_from_frames", "out_key_occurs", "build_groups")])
     import c06_model
     c06_model.run_model(ctx)          # ties TLX.TcpOut (the model the theorems are about) to the real OutputBuilder
     import q1_udpout
     q1_udpout.correspond(ctx)         # ties TLX.Quic.UdpOut to the real QUICOutputbuilder
+    file_corr.correspond(ctx, ctx.n(12, 200))     # ties the whole-program model (ExportProps' subject) file to file
     import c05
     # ties TLX.Reassembly (carriers, online delivery) to the real Session; C05's own framing oracle (and its open known
     # finding) stays in C05
